@@ -121,4 +121,18 @@ CHECKS = {
                 "Non-trivial: >=1 abandoned or rejected session/connection.",
         "assumptions": COMMON_ASSUME + ["cases run sequentially in one process, so the pre-case reading is the resting value"],
     },
+    "C13": {
+        "quick": 250, "thorough": 12000,
+        "rule": "rapid draws a configuration (1..5 ordered scopes with distinct keys and 1..3 prefixes each from an overlapping pool: "
+                "nested v4/v6, 0.0.0.0/0, ::/0, non-canonical 10.1.2.3/8, IPv4-mapped v6 prefixes; deny/allow lists of 0..3 "
+                "prefixes; 1..5 user entries over 3 names assigned to subsets of scopes with per-entry bcrypt credentials) rendered "
+                "to YAML or JSON and loaded by the reference stack, and 1..6 probe addresses (first/last address of a configured "
+                "prefix and the addresses just outside, fixed addresses, IPv4 as 4 bytes and as mapped 16 bytes). Oracle: the "
+                "harness' own admission model (own prefix bit arithmetic; deny, allow, first serving scope in order) decides "
+                "refused/scope; checked against Loader.Get (error / secret == scope key) and a scripted connection from that "
+                "address (refused: closed, 0 bytes, 0 handler calls; admitted: 12 PAP logins, PASS iff the credential is that "
+                "scope's for that user). Mapped-address cases where the Go reading and the inclusive reading disagree are GREY. "
+                "Non-trivial: probe matched by >=2 scopes, by deny and allow, or a prefix boundary address.",
+        "assumptions": COMMON_ASSUME + ["scopes without users are skipped (documented build rule)", "net.ParseIP parses address text; containment arithmetic is the harness' own"],
+    },
 }
